@@ -314,9 +314,11 @@ class DistributedRateLimiter(Entity):
                 self._global_limit,
             )
 
-            # Create forwarding event to downstream entity
+            # Create forwarding event to downstream entity. The store round
+            # trip has advanced the clock: stamping the arrival instant would
+            # schedule the event in the past, where the engine discards it.
             forward_event = Event(
-                time=now,
+                time=self.now if self._clock is not None else now,
                 event_type=f"forward::{event.event_type}",
                 target=self._downstream,
                 context=event.context.copy(),
